@@ -389,7 +389,12 @@ impl PageCache {
         }
 
         let mut entry = CacheEntry::new(key);
-        init(entry.data.as_mut_slice())?;
+        if let Err(e) = init(entry.data.as_mut_slice()) {
+            if let Some(budget) = &self.budget {
+                budget.release(Pool::Cache, PAGE_SIZE);
+            }
+            return Err(e);
+        }
         entry.pin();
         entry.mark_visited();
 
